@@ -15,24 +15,38 @@
   PROVED (full strength for the stated forms)
    * integer fields; `\X` and `\DDD` escapes; domain names in any mix of raw / `\X` / `\DDD`
      octet forms (incl. escaped dots, blanks, newlines, with the line count): absolute names,
-     relative names completed with the origin, `@`; `CLASSnnn`, `TYPEnnn`; `\# len hex` RDATA for
-     any class and type, checked against `Rdata::validate`; the lexical layer on blanks, comments
-     and line ends;
+     relative names completed with the origin, `@`; the lexical layer on blanks, comments and
+     line ends;
+   * TYPE and CLASS fields: the mnemonics (A NS MD MF CNAME SOA MB MG MR WKS PTR HINFO MINFO MX
+     TXT AAAA SRV; IN CH HS) in any mix of upper and lower case, and `TYPEnnn` / `CLASSnnn`;
+   * RDATA (`C23_rdata_partial`): `\# len hex` for any class and type, checked against
+     `Rdata::validate`; and the typed syntaxes of A (IN), NS MD MF CNAME MB MG MR PTR (one name),
+     MX, SOA, MINFO, SRV (IN), TXT, HINFO — names absolute, relative or `@`, in any octet forms;
+     character-strings quoted or unquoted, each octet raw, `\X` or `\DDD`, with raw newlines inside
+     quotes; all with the lines they span;
+   * gaps and line ends (`C23_gaps`): between fields any mix of blanks, `(`, `)` and — inside
+     parentheses — line ends (LF or CRLF) with optional comments; at the end of a record or line
+     such a gap that closes the parentheses, an optional comment, LF or CRLF; the line count and
+     the parenthesis state follow;
    * records assembled from these, with TTL and class each written or omitted, in either order (context
      defaults: `$TTL` default before previous TTL; previous class), owner absolute / relative /
-     `@` / omitted (leading blanks ⇒ previous owner); `$ORIGIN` and `$TTL` directive lines; blank
-     and comment-only lines;
+     `@` / omitted (a leading blank ⇒ previous owner); all gaps of a record general (so records
+     may span lines in parentheses opened anywhere, the usual `SOA ( … )` style included);
+     `$ORIGIN`, `$TTL` and `$INCLUDE` directive lines (the latter yield the include request with
+     the path — a quoted or unquoted string — and the origin given or current); blank and
+     comment-only lines; every line ending LF or CRLF;
    * whole files of such entries: exactly the denoted records, in order, with line numbers
      (`C23_records_partial`).
   NOT PROVED (the gap; the name says `_partial`)
-     type and class mnemonics, the typed RDATA syntaxes (A, AAAA, names,
-     SOA, MX, TXT/HINFO strings quoted and unquoted, WKS, SRV, …), parentheses across lines,
-     CRLF, a last line without newline.  These are covered on every run by the correspondence
+     the typed RDATA syntaxes of AAAA, WKS and Chaosnet A (not in the presentation AST: in the
+     subset they can be written in `\#` form); parentheses (and therefore line ends) inside
+     directive lines — there the fields are separated by blanks only; a last line without
+     newline.  These are covered on every run by the correspondence
      oracle, which is independent of these proofs: the harness's pretty-printer renders random
      record lists with random choices for *all* of the above and the expected parse is the
      generating record list (op `zfp`, spec column = expected records).
 -/
-import QV.Proofs.ZoneFile.Records
+import QV.Proofs.ZoneFile.Files
 
 namespace QV.C23
 open QV QV.ZF QV.Spec.ZF
@@ -59,13 +73,42 @@ theorem C23_absolute_name (origin : Option (List UInt8)) (ls : List PLabel) (hne
     (htotal : (flatLabels (ls.map labelOctets)).length + 1 ≤ 255)
     (rest : List UInt8) (hrest : atFieldEnd rest = true) (line : Nat) (paren : Bool) :
     parseName origin ⟨renderAbsName ls ++ rest, line, paren⟩ =
-      .ok (wireName (ls.map labelOctets), ⟨rest, line + ownerLines (.abs ls), paren⟩) :=
+      .ok (wireName (ls.map labelOctets), ⟨rest, line + nameLines (.abs ls), paren⟩) :=
   parseName_abs origin ls hne hforms hLs htotal rest hrest line paren
+
+/-- relative names are completed with the origin; `@` is the origin -/
+theorem C23_relative_name (o : List UInt8) (ho : NameWF o) (ls : List PLabel) (l : PLabel)
+    (hforms : ∀ l' ∈ ls ++ [l], ∀ x ∈ l', nameFormOK x.1 x.2 = true)
+    (hLs : LabelsOK ((ls ++ [l]).map labelOctets))
+    (htotal : (wireLabels ((ls ++ [l]).map labelOctets)).length + o.length ≤ 255)
+    (hnotat : renderLabels (ls ++ [l]) ≠ [64])
+    (rest : List UInt8) (hrest : atFieldEnd rest = true) (line : Nat) (paren : Bool) :
+    parseName (some o) ⟨renderLabels (ls ++ [l]) ++ rest, line, paren⟩ =
+      .ok (wireLabels ((ls ++ [l]).map labelOctets) ++ o, ⟨rest, line + nameLines (.rel ls l), paren⟩) ∧
+    parseName (some o) ⟨64 :: rest, line, paren⟩ = .ok (o, ⟨rest, line, paren⟩) :=
+  ⟨parseName_rel o ho ls l hforms hLs htotal hnotat rest hrest line paren, parseName_at o rest hrest line paren⟩
+
+/-- a name field — absolute, relative or `@` — is read as the name it denotes, wherever a name
+    is expected (owner, RDATA, `$ORIGIN`) -/
+theorem C23_name_field (origin : Option (List UInt8)) (hO : ∀ o, origin = some o → NameWF o) (n : PName)
+    (hwf : WFName n) (w : List UInt8) (hw : nameWire origin n = some w) (rest : List UInt8)
+    (hrest : atFieldEnd rest = true) (line : Nat) (paren : Bool) :
+    parseName origin ⟨nameText n ++ rest, line, paren⟩ = .ok (w, ⟨rest, line + nameLines n, paren⟩) :=
+  (nameText_ok origin hO n hwf w hw).parse rest line paren hrest
 
 /-- `CLASSnnn` and `TYPEnnn` (RFC 3597 §5) -/
 theorem C23_class_type_forms (n : Nat) (hn : n ≤ 65535) :
     parseClass (renderClass n) = some n ∧ parseType (renderType n) = some n :=
   ⟨parseClass_render n hn, parseType_render n hn⟩
+
+/-- TYPE and CLASS fields, mnemonic (any case) or numeric form: read as their value, and never
+    mistaken for a TTL (or, a type, for a class) -/
+theorem C23_mnemonics (c : PCode) :
+    (WFType c → parseType (typeText c) = some c.value ∧ parseU32 (typeText c) = none ∧
+      parseClass (typeText c) = none) ∧
+    (WFClass c → parseClass (classText c) = some c.value ∧ parseU32 (classText c) = none) :=
+  ⟨fun h => ⟨(typeText_ok c h).parse, (typeText_ok c h).notU32, (typeText_ok c h).notClass⟩,
+   fun h => ⟨(classText_ok c h).parse, (classText_ok c h).notU32⟩⟩
 
 /-- RFC 3597 generic RDATA, for any class and type -/
 theorem C23_generic_rdata (ctx : Ctx) (cls ty : Nat) (h41 : ty ≠ 41) (h250 : ty ≠ 250)
@@ -76,95 +119,254 @@ theorem C23_generic_rdata (ctx : Ctx) (cls ty : Nat) (h41 : ty ≠ 41) (h250 : t
       .ok (rd, ⟨r, line + 1, false⟩) :=
   parseRdata_generic ctx cls ty h41 h250 sep rd ws cmt r hne hsep hlen hvalid hws hc line
 
-/-- relative names are completed with the origin; `@` is the origin -/
-theorem C23_relative_name (o : List UInt8) (ho : NameWF o) (ls : List PLabel) (l : PLabel)
-    (hforms : ∀ l' ∈ ls ++ [l], ∀ x ∈ l', nameFormOK x.1 x.2 = true)
-    (hLs : LabelsOK ((ls ++ [l]).map labelOctets))
-    (htotal : (wireLabels ((ls ++ [l]).map labelOctets)).length + o.length ≤ 255)
-    (hnotat : renderLabels (ls ++ [l]) ≠ [64])
-    (rest : List UInt8) (hrest : atFieldEnd rest = true) (line : Nat) (paren : Bool) :
-    parseName (some o) ⟨renderLabels (ls ++ [l]) ++ rest, line, paren⟩ =
-      .ok (wireLabels ((ls ++ [l]).map labelOctets) ++ o, ⟨rest, line + ownerLines (.rel ls l), paren⟩) ∧
-    parseName (some o) ⟨64 :: rest, line, paren⟩ = .ok (o, ⟨rest, line, paren⟩) :=
-  ⟨parseName_rel o ho ls l hforms hLs htotal hnotat rest hrest line paren, parseName_at o rest hrest line paren⟩
+/-- **RDATA**, generic or typed (the kinds of `PRdata`: `\#`, A, one-name types, MX, SOA, MINFO,
+    SRV, TXT, HINFO), with any well-formed gaps — blanks, parentheses, line ends and comments
+    inside parentheses — before (`G 0`), inside (`G (i+1)`) and after it (`tg`), up to the end of
+    the line (LF or CRLF): the text is read as the RDATA it denotes; the line count advances by
+    the line ends inside gaps, names and strings plus one, and the parentheses are closed.
+    `S i` is "inside parentheses" before gap `i`. -/
+theorem C23_rdata_partial (ctx : Ctx) (hctx : CtxWF ctx) (cls ty : Nat) (h41 : ty ≠ 41) (h250 : ty ≠ 250)
+    (G : Nat → PGap) (S : Nat → Bool) (tg : PGap) (cmt : List UInt8) (crlf : Bool) (r : List UInt8)
+    (rd : PRdata) (hG : ∀ i, i ≤ rdataGaps rd → GapOK (G i) (S i) (S (i + 1)))
+    (hT : TailOK tg cmt (S (rdataGaps rd + 1))) (hwf : WFRdata rd)
+    (hk : kindOK cls ty rd = true) (w : List UInt8) (hw : rdataWire ctx.origin rd = some w)
+    (hv : ∀ g, rd = .generic g → Rdata.validate cls ty g.toArray = .ok ()) (line : Nat) :
+    parseRdata ctx cls ty
+      ⟨gapText (G 0) ++ (rdataText (fun i => G (i + 1)) rd ++ (tailText tg cmt crlf ++ r)), line, S 0⟩ =
+      .ok (w, ⟨r, line + gapLines (G 0) + rdataLines (fun i => G (i + 1)) rd + gapLines tg + 1, false⟩) :=
+  parseRdata_render ctx hctx cls ty h41 h250 G S tg cmt crlf r rd hG hT hwf hk w hw hv line
+
+/-- **Gaps and line ends** (the lexical layer): a well-formed gap is skipped up to the next
+    field, with the line count and parenthesis state it implies; the end of a record or line —
+    a gap that leaves the parentheses, an optional comment, LF or CRLF — is recognised as such -/
+theorem C23_gaps (thr : Bool) (g : PGap) (p p' : Bool) (hg : GapOK g p p') (X : List UInt8) (hX : Starts X)
+    (tg : PGap) (cmt : List UInt8) (q : Bool) (hT : TailOK tg cmt q) (crlf : Bool) (r : List UInt8) (line : Nat) :
+    fieldOrEol thr (gapText g ++ X) line p = .ok (.Field, ⟨X, line + gapLines g, p'⟩) ∧
+    fieldOrEol true (tailText tg cmt crlf ++ r) line q = .ok (.Eol, ⟨r, line + gapLines tg + 1, false⟩) :=
+  ⟨fieldOrEol_gapG thr g p p' hg.wf hg.run X hX line, fieldOrEol_tail tg cmt q hT crlf r line⟩
+
+example : fieldOrEol false (gapText [.blank false, .openParen, .newline [59, 120] true, .blank true] ++ [97]) 1 false =
+      .ok (.Field, ⟨[97], 2, true⟩) ∧
+    fieldOrEol true (tailText [.newline [] false, .closeParen, .blank false] [59, 120] true ++ [97]) 1 true =
+      .ok (.Eol, ⟨[97], 3, false⟩) :=
+  C23_gaps false [.blank false, .openParen, .newline [59, 120] true, .blank true] false true
+    (GapOK_of_B (by decide)) [97] ⟨97, [], rfl, .inr (by decide)⟩
+    [.newline [] false, .closeParen, .blank false] [59, 120] true (TailOK_of_B (by decide)) true [97] 1
 
 /-! ### records and files -/
 
 /-- one record line ↦ the record it denotes, and the context it leaves -/
 theorem C23_record_partial (ctx : Ctx) (hctx : CtxWF ctx) (p : PRecord) (hwf : WFRecord p) (line : Nat)
-    (r : List UInt8) (sr : SRecord) (sc' : SCtx) (hden : denoteRecord (toSCtx ctx) line p = some (sr, sc'))
-    (hvalid : Rdata.validate sr.cls p.ty p.rdata.toArray = .ok ()) :
+    (r : List UInt8) (sr : SRecord) (sc' : SCtx)
+    (hden : denoteRecord validB (toSCtx ctx) line p = some (sr, sc')) :
     ∃ ctx', parseLine ctx ⟨renderRecord p ++ r, line, false⟩ =
         .ok ((some (.record sr.line ⟨sr.owner, sr.ttl, sr.cls, sr.ty, sr.rdata⟩), ctx'),
-             ⟨r, line + ownerLines p.owner + 1, false⟩) ∧
+             ⟨r, line + recordLines p + 1, false⟩) ∧
       toSCtx ctx' = sc' :=
-  parseLine_record ctx hctx p hwf line r sr sc' hden hvalid
+  parseLine_record ctx hctx p hwf line r sr sc' hden
 
 /-- **Whole files (the subset above).**  For every list of well-formed entries and every
-    well-formed initial context in which the file denotes the records `srs` (each with RDATA valid
-    for its class and type): the parser yields exactly `srs`, in order, with their line numbers,
-    and nothing else. -/
+    well-formed initial context in which the file denotes the records `srs` (`validB`: RDATA
+    written in RFC 3597 form must be valid for its class and type, as RFC 3597 §5 asks): the
+    parser yields exactly `srs`, in order, with their line numbers, and nothing else. -/
 theorem C23_records_partial (es : List PEntry) (hwf : ∀ e ∈ es, WFEntry e) (ctx : Ctx) (hctx : CtxWF ctx)
-    (srs : List SRecord) (hden : denoteFile es (toSCtx ctx) 1 = some srs)
-    (hvalid : ∀ sr ∈ srs, Rdata.validate sr.cls sr.ty sr.rdata.toArray = .ok ()) :
+    (srs : List SItem) (hden : denoteFile validB es (toSCtx ctx) 1 = some srs) :
     parseAll (renderFile es) ctx = srs.map itemOf :=
-  collect_file es hwf ctx hctx 1 srs hden hvalid
+  collect_file es hwf ctx hctx 1 srs hden
 
 /-! ### non-vacuity -/
 
-/-- `$ORIGIN t.` / `a\.b.\010c. CLASS1 5 TYPE1 \# 4 01020304 ;x` / (blank) / ` TYPE16 \# 2 0161`
-    / `$TTL 9` / `w CLASS3 TYPE99 \# 0` / `@ TYPE2 \# 3 017800` -/
-def exFile : List PEntry :=
-  [.origin [[(116, .raw)]] [32] [] [],
-   .record ⟨.abs [[(97, .raw), (46, .esc), (98, .raw)], [(10, .dec), (99, .raw)]], some 5, some 1, true, 1,
-      [1, 2, 3, 4], [32], [32], [59, 120]⟩,
-   .blank [9] [],
-   .record ⟨.same, none, none, false, 16, [1, 97], [32, 9], [], []⟩,
-   .ttl 9 [32] [] [],
-   .record ⟨.rel [] [(119, .raw)], none, some 3, false, 99, [], [32], [], []⟩,
-   .record ⟨.atSign, none, none, true, 2, [1, 120, 0], [32], [], []⟩]
+example : WFType (.mnemonic [110, 83] 2) ∧ WFClass (.mnemonic [105, 110] 1) :=
+  ⟨⟨"NS", by decide, by decide +kernel⟩, ⟨"IN", by decide, by decide +kernel⟩⟩
 
-/-- the example file is well-formed and denotes four records -/
+private theorem mIN : WFClass (.mnemonic [105, 78] 1) := ⟨"IN", by decide, by decide +kernel⟩
+private theorem mNs : WFType (.mnemonic [78, 115] 2) := ⟨"NS", by decide, by decide +kernel⟩
+private theorem mMx : WFType (.mnemonic [109, 120] 15) := ⟨"MX", by decide, by decide +kernel⟩
+private theorem mSoa : WFType (.mnemonic [83, 79, 65] 6) := ⟨"SOA", by decide, by decide +kernel⟩
+private theorem mSrv : WFType (.mnemonic [83, 114, 118] 33) := ⟨"SRV", by decide, by decide +kernel⟩
+private theorem mA : WFType (.mnemonic [97] 1) := ⟨"A", by decide, by decide +kernel⟩
+private theorem mTxt : WFType (.mnemonic [116, 120, 116] 16) := ⟨"TXT", by decide, by decide +kernel⟩
+private theorem mHinfo : WFType (.mnemonic [72, 105, 110, 102, 111] 13) := ⟨"HINFO", by decide, by decide +kernel⟩
+private theorem mMinfo : WFType (.mnemonic [77, 73, 78, 70, 79] 14) := ⟨"MINFO", by decide, by decide +kernel⟩
+
+private def nA : PName := .rel [] [(97, .raw)]
+private def nMail : PName := .abs [[(109, .raw), (92, .esc), (10, .esc)], [(120, .dec)]]
+/-- `"a<newline>b\""`, `c\;d`, `\100` -/
+private def sQ : PString := ⟨true, [(97, .raw), (10, .raw), (98, .raw), (34, .esc)]⟩
+private def sU : PString := ⟨false, [(99, .raw), (59, .esc), (100, .raw)]⟩
+private def sD : PString := ⟨false, [(100, .dec)]⟩
+
+/-- the text (`¶` = LF, `¬` = CRLF, `→` = tab):
+    `$ORIGIN t.¶` `a\.b.\010c. iN 5 TYPE1 \# 4 01020304 ;x¬` `→¬` ` →TYPE16→\#(2;h¶ 0161)¶` `$TTL 9¬`
+    `w CLASS3 TYPE99 \# 0¶` `@ Ns a¶` ` mx 10 m\\\¶.\120.¶` ` SOA @ a ( 1 ;s¬ 2¶→3 4 4294967295 ) ;d¶`
+    `a→( 7;¶→iN ) Srv 1 2 3 @¶` ` MINFO a m\\\¶.\120. ;¶` ` a (192.0.2.1)¬` ` (txt "a¶b\"" c\;d¬ \100)¶`
+    ` Hinfo "" \100¶` `$INCLUDE "x y" a¶` `$INCLUDE→z ;¬` -/
+def exFile : List PEntry :=
+  [.origin [[(116, .raw)]] [32] [] [] false,
+   .record ⟨.named (.abs [[(97, .raw), (46, .esc), (98, .raw)], [(10, .dec), (99, .raw)]]), some 5,
+      some (.mnemonic [105, 78] 1), true, .generic 1, .generic [1, 2, 3, 4], [], [], [.blank false], [59, 120], true⟩,
+   .blank [9] [] true,
+   .record ⟨.same, none, none, false, .generic 16, .generic [1, 97], [[.blank false, .blank true]],
+      [[.blank true], [.openParen], [.newline [59, 104] false, .blank false]], [.closeParen], [], false⟩,
+   .ttl 9 [32] [] [] true,
+   .record ⟨.named (.rel [] [(119, .raw)]), none, some (.generic 3), false, .generic 99, .generic [], [], [], [], [], false⟩,
+   .record ⟨.named .atSign, none, none, true, .mnemonic [78, 115] 2, .name nA, [], [], [], [], false⟩,
+   .record ⟨.same, none, none, true, .mnemonic [109, 120] 15, .mx 10 nMail, [], [], [], [], false⟩,
+   .record ⟨.same, none, none, true, .mnemonic [83, 79, 65] 6, .soa .atSign nA 1 2 3 4 4294967295, [],
+      [[.blank false], [.blank false], [.blank false, .openParen, .blank false],
+       [.blank false, .newline [59, 115] true, .blank false], [.newline [] false, .blank true]],
+      [.blank false, .closeParen, .blank false], [59, 100], false⟩,
+   .record ⟨.named nA, some 7, some (.mnemonic [105, 78] 1), false, .mnemonic [83, 114, 118] 33,
+      .srv 1 2 3 .atSign,
+      [[.blank true, .openParen, .blank false], [.newline [59] false, .blank true], [.blank false, .closeParen, .blank false]],
+      [], [], [], false⟩,
+   .record ⟨.same, none, none, true, .mnemonic [77, 73, 78, 70, 79] 14, .minfo nA nMail, [], [], [.blank false], [59], false⟩,
+   .record ⟨.same, none, none, true, .mnemonic [97] 1, .a 192 0 2 1, [], [[.blank false, .openParen]], [.closeParen], [], true⟩,
+   .record ⟨.same, none, none, true, .mnemonic [116, 120, 116] 16, .txt sQ [sU, sD], [[.blank false, .openParen]],
+      [[.blank false], [.blank false], [.newline [] true, .blank false]], [.closeParen], [], false⟩,
+   .record ⟨.same, none, none, true, .mnemonic [72, 105, 110, 102, 111] 13, .hinfo ⟨true, []⟩ sD, [], [], [], [], false⟩,
+   .incl ⟨true, [(120, .raw), (32, .raw), (121, .raw)]⟩ (some nA) [32] [32] [] [] false,
+   .incl ⟨false, [(122, .raw)]⟩ none [9] [] [32] [59] true]
+
+/-- the example file is well-formed and denotes eleven records and two include requests -/
 theorem exFile_ok :
     (∀ e ∈ exFile, WFEntry e) ∧
-    denoteFile exFile (toSCtx {}) 1 =
-      some [⟨2, [3, 97, 46, 98, 2, 10, 99, 0], 5, 1, 1, [1, 2, 3, 4]⟩,
-            ⟨4, [3, 97, 46, 98, 2, 10, 99, 0], 5, 1, 16, [1, 97]⟩,
-            ⟨6, [1, 119, 1, 116, 0], 9, 3, 99, []⟩,
-            ⟨7, [1, 116, 0], 9, 3, 2, [1, 120, 0]⟩] := by
-  refine ⟨?_, by decide⟩
-  have wfAbs1 : WFOwnerAbs [[(116, .raw)]] :=
-    ⟨by simp, by decide, by simp [LabelsOK, labelOctets], by decide, by decide⟩
-  have wfAbs2 : WFOwnerAbs [[(97, .raw), (46, .esc), (98, .raw)], [(10, .dec), (99, .raw)]] :=
-    ⟨by simp, by decide, by simp [LabelsOK, labelOctets], by decide, by decide⟩
+    denoteFile validB exFile (toSCtx {}) 1 =
+      some [.record ⟨2, [3, 97, 46, 98, 2, 10, 99, 0], 5, 1, 1, [1, 2, 3, 4]⟩,
+            .record ⟨4, [3, 97, 46, 98, 2, 10, 99, 0], 5, 1, 16, [1, 97]⟩,
+            .record ⟨7, [1, 119, 1, 116, 0], 9, 3, 99, []⟩,
+            .record ⟨8, [1, 116, 0], 9, 3, 2, [1, 97, 1, 116, 0]⟩,
+            .record ⟨9, [1, 116, 0], 9, 3, 15, [0, 10, 3, 109, 92, 10, 1, 120, 0]⟩,
+            .record ⟨11, [1, 116, 0], 9, 3, 6, [1, 116, 0, 1, 97, 1, 116, 0, 0, 0, 0, 1, 0, 0, 0, 2, 0, 0, 0, 3,
+              0, 0, 0, 4, 255, 255, 255, 255]⟩,
+            .record ⟨14, [1, 97, 1, 116, 0], 7, 1, 33, [0, 1, 0, 2, 0, 3, 1, 116, 0]⟩,
+            .record ⟨16, [1, 97, 1, 116, 0], 9, 1, 14, [1, 97, 1, 116, 0, 3, 109, 92, 10, 1, 120, 0]⟩,
+            .record ⟨18, [1, 97, 1, 116, 0], 9, 1, 1, [192, 0, 2, 1]⟩,
+            .record ⟨19, [1, 97, 1, 116, 0], 9, 1, 16, [4, 97, 10, 98, 34, 3, 99, 59, 100, 1, 100]⟩,
+            .record ⟨22, [1, 97, 1, 116, 0], 9, 1, 13, [0, 1, 100]⟩,
+            .incl 23 [120, 32, 121] (some [1, 97, 1, 116, 0]),
+            .incl 24 [122] (some [1, 116, 0])] := by
+  refine ⟨?_, by decide +kernel⟩
+  have wfA : WFName nA := by unfold nA WFName; exact ⟨by decide, by simp [LabelsOK, labelOctets], by decide⟩
+  have wfMail : WFName nMail := by
+    unfold nMail WFName; exact ⟨by simp, by decide, by simp [LabelsOK, labelOctets], by decide⟩
+  have noOwner : ∀ n : PName, POwner.same = .named n → WFName n ∧ (nameText n).head? ≠ some 36 := by
+    intro n h; cases h
   intro e he
   simp only [exFile, List.mem_cons, List.mem_nil_iff, or_false] at he
-  rcases he with rfl | rfl | rfl | rfl | rfl | rfl | rfl
-  · exact ⟨wfAbs1, by simp, by decide, by decide, .inl rfl⟩
-  · refine ⟨by simp, by decide, by decide, .inr ⟨[120], rfl, by decide⟩, ?_, ?_, by decide, by decide, by decide, by decide⟩
-    · intro ls hls; cases hls; exact wfAbs2
-    · intro ls l hls; cases hls
+  rcases he with rfl | rfl | rfl | rfl | rfl | rfl | rfl | rfl | rfl | rfl | rfl | rfl | rfl | rfl | rfl | rfl
+  · exact ⟨⟨by simp, by decide, by simp [LabelsOK, labelOctets], by decide⟩, by simp, by decide, by decide, .inl rfl⟩
+  · refine ⟨?_, by decide, ?_,
+      ⟨by simp [WFType], by decide, by decide, by decide⟩, by simp [WFRdata], gaps_ok_of_B _ (by decide)⟩
+    · intro n hn; cases hn
+      exact ⟨⟨by simp, by decide, by simp [LabelsOK, labelOctets], by decide⟩, by decide⟩
+    · intro c hc; cases hc; exact mIN
   · exact ⟨by decide, .inl rfl⟩
-  · refine ⟨by simp, by decide, by decide, .inl rfl, ?_, ?_, by decide, by decide, by decide, by decide⟩
-    · intro ls hls; cases hls
-    · intro ls l hls; cases hls
+  · exact ⟨noOwner, by decide, (by intro c hc; cases hc),
+      ⟨by simp [WFType], by decide, by decide, by decide⟩, by simp [WFRdata], gaps_ok_of_B _ (by decide)⟩
   · exact ⟨by decide, by simp, by decide, by decide, .inl rfl⟩
-  · refine ⟨by simp, by decide, by decide, .inl rfl, ?_, ?_, by decide, by decide, by decide, by decide⟩
-    · intro ls hls; cases hls
-    · intro ls l hls; cases hls
-      exact ⟨by decide, by simp [LabelsOK, labelOctets], by decide, by decide⟩
-  · refine ⟨by simp, by decide, by decide, .inl rfl, ?_, ?_, by decide, by decide, by decide, by decide⟩
-    · intro ls hls; cases hls
-    · intro ls l hls; cases hls
+  · refine ⟨?_, by decide, ?_,
+      ⟨by simp [WFType], by decide, by decide, by decide⟩, by simp [WFRdata], gaps_ok_of_B _ (by decide)⟩
+    · intro n hn; cases hn
+      exact ⟨⟨by decide, by simp [LabelsOK, labelOctets], by decide⟩, by decide⟩
+    · intro c hc; cases hc; exact (by decide : (3 : Nat) ≤ 65535)
+  · refine ⟨?_, by decide, (by intro c hc; cases hc),
+      ⟨mNs, by decide, by decide, by decide⟩, ⟨wfA, by decide⟩, gaps_ok_of_B _ (by decide)⟩
+    intro n hn; cases hn; exact ⟨trivial, by decide⟩
+  · exact ⟨noOwner, by decide, (by intro c hc; cases hc),
+      ⟨mMx, by decide, by decide, by decide⟩, ⟨by decide, wfMail⟩, gaps_ok_of_B _ (by decide)⟩
+  · exact ⟨noOwner, by decide, (by intro c hc; cases hc),
+      ⟨mSoa, by decide, by decide, by decide⟩,
+      ⟨trivial, wfA, by decide, by decide, by decide, by decide, by decide, by decide⟩, gaps_ok_of_B _ (by decide)⟩
+  · refine ⟨?_, by decide, ?_,
+      ⟨mSrv, by decide, by decide, by decide⟩, ⟨by decide, by decide, by decide, trivial⟩, gaps_ok_of_B _ (by decide)⟩
+    · intro n hn; cases hn; exact ⟨wfA, by decide⟩
+    · intro c hc; cases hc; exact mIN
+  · exact ⟨noOwner, by decide, (by intro c hc; cases hc),
+      ⟨mMinfo, by decide, by decide, by decide⟩, ⟨wfA, wfMail, by decide⟩, gaps_ok_of_B _ (by decide)⟩
+  · exact ⟨noOwner, by decide, (by intro c hc; cases hc),
+      ⟨mA, by decide, by decide, by decide⟩, ⟨by decide, by decide, by decide, by decide⟩, gaps_ok_of_B _ (by decide)⟩
+  · refine ⟨noOwner, by decide, (by intro c hc; cases hc),
+      ⟨mTxt, by decide, by decide, by decide⟩, ⟨?_, by decide, by decide⟩, gaps_ok_of_B _ (by decide)⟩
+    intro x hx
+    simp only [List.mem_cons, List.mem_nil_iff, or_false] at hx
+    rcases hx with rfl | rfl | rfl <;> exact ⟨by decide, by decide, by decide⟩
+  · exact ⟨noOwner, by decide, (by intro c hc; cases hc),
+      ⟨mHinfo, by decide, by decide, by decide⟩,
+      ⟨⟨by decide, by decide, by decide⟩, ⟨by decide, by decide, by decide⟩, by decide⟩, gaps_ok_of_B _ (by decide)⟩
+  · refine ⟨⟨by decide, by decide, by decide⟩, ?_, by simp, by decide, by decide, .inl rfl⟩
+    intro n hn; cases hn; exact ⟨wfA, by simp, by decide⟩
+  · exact ⟨⟨by decide, by decide, by decide⟩, (by intro n hn; cases hn), by simp, by decide, by decide,
+      .inr ⟨[], rfl, by simp⟩⟩
 
 /-- … so the theorem applies to it -/
 example : parseAll (renderFile exFile) {} =
     [.item (.record 2 ⟨[3, 97, 46, 98, 2, 10, 99, 0], 5, 1, 1, [1, 2, 3, 4]⟩),
      .item (.record 4 ⟨[3, 97, 46, 98, 2, 10, 99, 0], 5, 1, 16, [1, 97]⟩),
-     .item (.record 6 ⟨[1, 119, 1, 116, 0], 9, 3, 99, []⟩),
-     .item (.record 7 ⟨[1, 116, 0], 9, 3, 2, [1, 120, 0]⟩)] := by
-  rw [C23_records_partial exFile exFile_ok.1 {} CtxWF_default _ exFile_ok.2 (by decide +kernel)]
+     .item (.record 7 ⟨[1, 119, 1, 116, 0], 9, 3, 99, []⟩),
+     .item (.record 8 ⟨[1, 116, 0], 9, 3, 2, [1, 97, 1, 116, 0]⟩),
+     .item (.record 9 ⟨[1, 116, 0], 9, 3, 15, [0, 10, 3, 109, 92, 10, 1, 120, 0]⟩),
+     .item (.record 11 ⟨[1, 116, 0], 9, 3, 6, [1, 116, 0, 1, 97, 1, 116, 0, 0, 0, 0, 1, 0, 0, 0, 2, 0, 0, 0, 3,
+              0, 0, 0, 4, 255, 255, 255, 255]⟩),
+     .item (.record 14 ⟨[1, 97, 1, 116, 0], 7, 1, 33, [0, 1, 0, 2, 0, 3, 1, 116, 0]⟩),
+     .item (.record 16 ⟨[1, 97, 1, 116, 0], 9, 1, 14, [1, 97, 1, 116, 0, 3, 109, 92, 10, 1, 120, 0]⟩),
+     .item (.record 18 ⟨[1, 97, 1, 116, 0], 9, 1, 1, [192, 0, 2, 1]⟩),
+     .item (.record 19 ⟨[1, 97, 1, 116, 0], 9, 1, 16, [4, 97, 10, 98, 34, 3, 99, 59, 100, 1, 100]⟩),
+     .item (.record 22 ⟨[1, 97, 1, 116, 0], 9, 1, 13, [0, 1, 100]⟩),
+     .item (.incl 23 [120, 32, 121] (some [1, 97, 1, 116, 0])),
+     .item (.incl 24 [122] (some [1, 116, 0]))] := by
+  rw [C23_records_partial exFile exFile_ok.1 {} CtxWF_default _ exFile_ok.2]
   rfl
+
+/-- the same file, evaluated directly: the text is what it is meant to be and the parser yields
+    eleven records and two include requests -/
+example : (parseAll (renderFile exFile) {}).length = 13 := by decide +kernel
+
+/-- RDATA alone: ` ( 10 ;x<CRLF> a )` after the type field of an MX record, origin `t.` -/
+example : parseRdata { origin := some [1, 116, 0] } 1 15
+    ⟨gapText [.blank false, .openParen, .blank false] ++
+      (rdataText (fun _ => [.blank false, .newline [59, 120] true, .blank false]) (.mx 10 nA) ++
+        (tailText [.blank false, .closeParen] [] false ++ [])), 1, false⟩ =
+    .ok ([0, 10, 1, 97, 1, 116, 0], ⟨[], 3, false⟩) := by
+  have h := C23_rdata_partial { origin := some [1, 116, 0] }
+    ⟨by intro o ho; cases ho; exact ⟨[[116]], by simp [LabelsOK], by decide, by decide⟩, by simp⟩
+    1 15 (by decide) (by decide)
+    (fun i => if i = 0 then [.blank false, .openParen, .blank false] else [.blank false, .newline [59, 120] true, .blank false])
+    (fun i => decide (1 ≤ i)) [.blank false, .closeParen] [] false [] (.mx 10 nA)
+    (by
+      intro i hi
+      have : i = 0 ∨ i = 1 := by simp [rdataGaps] at hi; omega
+      rcases this with rfl | rfl <;> exact GapOK_of_B (by decide))
+    (TailOK_of_B (by decide))
+    ⟨by decide, by unfold nA WFName; exact ⟨by decide, by simp [LabelsOK, labelOctets], by decide⟩⟩
+    (by decide) [0, 10, 1, 97, 1, 116, 0] (by decide) (by intro g hg; cases hg) 1
+  simpa [rdataLines, gapLines, nameLines, nA, labelLines] using h
+
+private def exRec : PRecord :=
+  ⟨.same, none, none, true, .mnemonic [109, 120] 15, .mx 10 nA, [], [[.blank false, .openParen]],
+    [.newline [] true, .closeParen], [], false⟩
+
+/-- one record: ` mx (10 a<CRLF>)<LF>` with previous owner `t.`, TTL 9, class 1 — two lines -/
+example : ∃ ctx', parseLine { origin := some [1, 116, 0], prevOwner := some [1, 116, 0], prevTtl := some 9, prevClass := some 1 }
+      ⟨renderRecord exRec ++ [], 1, false⟩ =
+      .ok ((some (.record 1 ⟨[1, 116, 0], 9, 1, 15, [0, 10, 1, 97, 1, 116, 0]⟩), ctx'), ⟨[], 3, false⟩) ∧
+      toSCtx ctx' = ⟨some [1, 116, 0], some [1, 116, 0], some 9, some 1, none⟩ := by
+  have hT : NameWF [1, 116, 0] := ⟨[[116]], by simp [LabelsOK], by decide, by decide⟩
+  have hwf : WFRecord exRec :=
+    ⟨(by intro n h; cases h), by decide, (by intro c hc; cases hc),
+      ⟨mMx, by decide, by decide, by decide⟩,
+      ⟨by decide, by unfold nA WFName; exact ⟨by decide, by simp [LabelsOK, labelOctets], by decide⟩⟩,
+      gaps_ok_of_B _ (by decide)⟩
+  exact C23_record_partial _ ⟨by intro o ho; cases ho; exact hT, by intro o ho; cases ho; exact hT⟩ exRec hwf
+    1 [] ⟨1, [1, 116, 0], 9, 1, 15, [0, 10, 1, 97, 1, 116, 0]⟩ _ (by decide +kernel)
+
+/-- a name field: `a\.b` relative to `t.` -/
+example : parseName (some [1, 116, 0]) ⟨nameText (.rel [] [(97, .raw), (46, .esc), (98, .raw)]) ++ [10], 1, false⟩ =
+    .ok ([3, 97, 46, 98, 1, 116, 0], ⟨[10], 1, false⟩) :=
+  C23_name_field (some [1, 116, 0])
+    (by intro o ho; cases ho; exact ⟨[[116]], by simp [LabelsOK], by decide, by decide⟩) _
+    (by unfold WFName; exact ⟨by decide, by simp [LabelsOK, labelOctets], by decide⟩) _ (by decide) [10]
+    (by decide) 1 false
 
 /-- concrete witness beyond the proved subset (parentheses, comments inside them, quoted strings,
     mnemonics): `$ORIGIN t.` / `@ 5 IN NS ( a` / ` ) ; c` / ` TXT "x y" z` -/
